@@ -5,7 +5,7 @@ func init() {
 		"Decides, on every enumerated path of every table-mutating operation and of the eviction callback, that a value which stops being current is reported exactly once atomically (inside the bucket-locked computation, with that node's key/value and the truthful cause) and exactly once deferred (one replay task, run exactly once by runTask, or one direct notification without maintenance), and that nothing is reported when the table is unchanged; the task of a writer that runs maintenance itself is replayed on every path of maintenance (C13.order) and a popped task always reaches runTask (C16.consume) - a dropped task is a lost deferred report. "+
 			"NOT decided: conservation (written = present + reported) over whole histories and races between replacement and eviction of one key beyond the per-path identity test.",
 		[]string{"hashmap.Map.Compute runs its callback exactly once under the bucket lock (C15)", "every enqueued task is replayed exactly once (C16, C05.runTask)"},
-		ruleC06Atomic, ruleC05Task, ruleC05RunTask, ruleEvict, ruleC13Order, ruleC16Consume)
+		ruleC06Atomic, ruleC05Task, ruleC05RunTask, ruleEvict, ruleC13Order, ruleC16Consume, ruleC01Config)
 	register("C09",
 		"Decides that every explicit write/compute/invalidate/eviction clears the key's in-flight load record inside the same bucket-locked computation that changes the mapping (C09.clear) and that the load installer installs or removes only on paths where, inside that computation, its record was still registered (C09.guard = the installer's decision table), so a superseded load cannot overwrite a newer write. "+
 			"The installer's own-record test is an identity test inside the in-flight table's computation (C08.getorcreate: records are removed only by pointer identity). "+
@@ -15,12 +15,12 @@ func init() {
 	register("C20",
 		"Decides the per-path counting facts behind exact statistics: the lookup-count table per operation with hit <=> live entry (C20.lookup), one load record per loader dispatch and eviction records only for removals that happened (C20.load / C20.evict); the bundled recorder adds each reported figure exactly once to its own counter, nothing else writes a counter, Snapshot and the Stats arithmetic pair the fields of the same name (C20.counter / C20.stats); the striped adder returns only after exactly one successful compare-and-swap of count+delta on the stripe it read, Value sums every stripe (C20.adder). NOT decided: that concurrent Adds interleave correctly at run time beyond this CAS protocol shape.",
 		[]string{"a user-supplied stats.Recorder counts what it is told (the bundled stats.Counter is decided by C20.counter / C20.adder)"},
-		ruleC20Lookup, ruleC20Load, ruleEvict, ruleC20Counter, ruleC20Adder, ruleC20Stats)
+		ruleC20Lookup, ruleC20Load, ruleEvict, ruleC20Counter, ruleC20Adder, ruleC20Stats, ruleC01Config)
 	register("C12",
 		"Decides the structural clauses of exact, overflow-free deadlines on every enumerated path: each stored deadline is the saturating sum of the operation's clock sample and the duration the hook returned on that path (C12.sat); hooks are selected by the pre-state - create for absent/expired, update/reload with the live old value, failure hook on failed reloads, read hook once per counted read - and an expired predecessor's value is never passed on (C12.hook, and C12.loadread for the loading reads); a replacing node inherits its predecessor's deadlines first (C12.inherit); the deadline writers are exactly the known sites (C12.sites); HasExpired/IsFresh have the same boundary in every variant (C12.bound). "+
 			"NOT decided: numeric equality deadline = now + d on concrete runs.",
 		[]string{"xmath.SaturatedAdd saturates (checked by C12.satfn)", "user-supplied calculators are pure with respect to the cache (the built-in ones are decided by C12.calc)"},
-		ruleC12Hooks, ruleC12Sites, ruleC12Bound, ruleC12Apply, ruleC10Finisher, ruleC12LoadReads, ruleC12Calc, ruleC12Clock)
+		ruleC12Hooks, ruleC12Sites, ruleC12Bound, ruleC12Apply, ruleC10Finisher, ruleC12LoadReads, ruleC12Calc, ruleC12Clock, ruleC01Config)
 }
 
 func init() {
@@ -50,12 +50,12 @@ func init() {
 			"A node the climber moves between queues leaves exactly one queue and enters exactly one (C05.moves): an entry in no queue can never be chosen for eviction. "+
 			"NOT decided: the bound itself (sum of weights <= maximum) over histories and schedules; absence of uint64 underflow in the totals.",
 		[]string{"the eviction callback updates the policy's counters (modelled as havoc of the policy's fields)", "deque operations behave as C05.deque decides"},
-		rulePolicy, ruleDeque, ruleDequeShape, ruleC04SetMax, ruleC05Task, ruleC05RunTask, ruleC13Order, ruleC05Moves)
+		rulePolicy, ruleDeque, ruleDequeShape, ruleC04SetMax, ruleC05Task, ruleC05RunTask, ruleC13Order, ruleC05Moves, ruleC01Config)
 	register("C05",
 		"Decides, per path, that policy bookkeeping follows the table: every table change yields exactly one matching replay task (C05.task); the replay handler applies each task kind completely (C05.runTask); add links only alive nodes (C05.alive); the update handler leaves the new node linked - transplant only from a contained predecessor, else window entry (C05.transplant); the eviction callback unlinks, unschedules and kills on all paths (C05.evict); the intrusive deque clears links of removed/replaced nodes and keeps len in step (C05.deque); totals are written only by their handlers (C04.acct); the functions that move entries between the three queues conserve membership, tag and per-queue counters on every path (C05.moves); policy, deque, wheel and node link state is written, and both buffers are consumed, only with the eviction lock held (C05.lockctx); no task is dropped on enqueue (C14.after); every mutator of the timer wheel keeps scheduled <=> linked in exactly one ring - Add links on every path (C13.shape): an entry the wheel does not know is never swept. "+
 			"NOT decided: equality of the counters with the sum of weights and set(Coldest)=set(All) as run-time facts.",
 		[]string{"tasks are replayed exactly once in producer order (C16)"},
-		ruleC05Task, ruleC05RunTask, rulePolicy, ruleC05Moves, ruleDeque, ruleDequeShape, ruleEvict, ruleC05LockCtx, ruleC05LockRead, ruleC14After, ruleC16Consume, ruleWheelShape)
+		ruleC05Task, ruleC05RunTask, rulePolicy, ruleC05Moves, ruleDeque, ruleDequeShape, ruleEvict, ruleC05LockCtx, ruleC05LockRead, ruleC14After, ruleC16Consume, ruleWheelShape, ruleC01Config)
 	register("C07",
 		"Decides the structural clauses of 'entries disappear only for a sanctioned, truthful reason': evictions for size happen only in iterations guarded by weightedSize > maximum and never hit zero-weight entries (C04.loop, C04.zero); window transfers only above the window maximum (C07.window); the eviction callback reports Expiration exactly when the victim is expired at its time and Overflow otherwise, and only the policy (which exists only with a size bound) and the timer wheel call it (C07.causeflow); the wheel expires only on deadline < wheel time and passes that time (C13.nodrop). "+
 			"A deadline that has passed is the entry's own: a write over an absent or expired key takes the create hook and a fresh clock sample (C12.hook), so no entry is born with its predecessor's expired deadline; a loaded value is stored with a clock sample taken when it is stored, not when the load began (C10.finisher), so a slow load does not produce an entry that expires before its deadline. "+
